@@ -869,6 +869,9 @@ func (w *World) openTunnel(spec TunnelSpec, fatal bool) bool {
 		t.rec.Kind = "rev"
 		w.mu.Unlock()
 		w.mu.Lock()
+		if spec.Server < 0 {
+			spec.Server = len(w.servers) // a reverse-tunnel server of its own (index allocated under the lock)
+		}
 		for len(w.servers) <= spec.Server {
 			rs := &revServer{idx: len(w.servers), conn: t.conn}
 			rs.rs = grpctunnel.NewReverseTunnelServer(stub, fcOpt(cfg.ClientFC)...)
